@@ -907,6 +907,23 @@ impl World {
     }
 }
 
+#[cfg(hecs_verif)]
+impl World {
+    /// Snapshot of the world's internal bookkeeping
+    pub fn verif_dump(&self) -> crate::verif::WorldDump {
+        crate::verif::WorldDump {
+            entities: self.entities.verif_dump(),
+            archetypes: self
+                .archetypes
+                .archetypes
+                .iter()
+                .map(|a| a.verif_dump())
+                .collect(),
+            id: self.id,
+        }
+    }
+}
+
 unsafe impl Send for World {}
 unsafe impl Sync for World {}
 
